@@ -265,6 +265,10 @@ func Parse(r io.Reader) (allEnvironment, error) {
 	l := newLexer(r)
 	gritsParse(l)
 	allEnvironment := allEnvironment{}
+	if l.scanner.err != nil {
+		// e.g. an illegal character, which the parser cannot tell apart from the end of the input
+		return allEnvironment, l.scanner.err
+	}
 	select {
 	case err := <-l.Errors:
 		return  allEnvironment, err
